@@ -147,7 +147,21 @@ def oracle(ck, spec, res, light):
                 key = "fitted-ne-scale-matrix-clp" + (":chained-relations" if chained else "") + (":linked" if linked else ":unlinked")
                 ck.violation(key, f"{label!r}: fitted_data != dataset_scale x matrix x clp at some global index", case)
             # constrained clps exactly zero, related clps exactly parameter x source on their intervals
-            for gi, x in enumerate(ds["global_axis"]):
+            # Interval items act on the coordinate of the clp. In a linked group a clp belongs to an *aligned* point that can
+            # be shared by points of several datasets lying (within the link tolerance) on both sides of an interval bound;
+            # "on their intervals" is therefore read on the aligned global axis there — a reading on each member's own
+            # coordinate is unsatisfiable for such merged points (the statement's oracle asked for it until seed 13 showed so).
+            own_axis = list(ds["global_axis"])
+            coord_axis = own_axis
+            if gen_scheme.resolve_linked(spec, ds["group"]):
+                members = [d2 for d2 in spec["datasets"] if d2["group"] == ds["group"]]
+                al = c02._align([d2["global_axis"] for d2 in members], spec.get("clp_link_tolerance", 0.0),
+                                spec.get("clp_link_method", "nearest"))
+                if al is not None:
+                    coord_axis = list(al[[d2["label"] for d2 in members].index(label)])
+                    if coord_axis != own_axis:
+                        ck.count("oracle:interval-evaluated-at-aligned-coordinate")
+            for gi, x in enumerate(coord_axis):
                 # a clp that is also the target of a relation is governed by the relation (contradictory spec otherwise)
                 targets = {rr["target"] for rr in spec.get("relations", []) if c02._applies(rr.get("interval"), x)}
                 for con in spec.get("constraints", []):
